@@ -104,6 +104,7 @@ class GLRParser(Parser):
         self._tokens_ahead = []
         self._last_shifted_heads = []
         self._for_shifter = []
+        self._frontier = 0
 
         # We start with a single parser head in state 0.
         start_head = GSSNode(
@@ -428,6 +429,11 @@ class GLRParser(Parser):
 
         self._active_heads = {}
 
+        # All heads shifted in one go end at the same position and make a new
+        # frontier. Heads waiting in the shifter for a longer token may come
+        # from older frontiers so frontiers are numbered per shift round.
+        self._frontier += 1
+
         # Due to lexical ambiguity heads might be at different positions.
         # We must order heads by position before shift to process them in
         # the right order. Only shift heads with minimal position during
@@ -450,8 +456,16 @@ class GLRParser(Parser):
             shifted_head = self._active_heads.get(to_state.state_id, None)
             if shifted_head:
                 # If this token has already been shifted connect shifted head to
-                # this head.
-                parent = next(iter(shifted_head.parents.values())).clone_with_root(head)
+                # this head. Due to lexical ambiguity the token of this head
+                # may start at a different position than the already shifted
+                # one so the link must be built from this head's own token.
+                parent = Parent(
+                    shifted_head,
+                    head,
+                    head.position,
+                    end_position,
+                    token=head.token_ahead,
+                )
                 if self.dynamic_filter and not self._call_dynamic_filter(
                     parent, head.state, to_state, SHIFT
                 ):
@@ -469,7 +483,7 @@ class GLRParser(Parser):
                     head.input_str,
                     to_state,
                     end_position,
-                    head.frontier + 1,
+                    self._frontier,
                     head.extra,
                     ambiguity=1,
                     layout_content=head.layout_content_ahead,
